@@ -245,6 +245,8 @@ def check(prog, res, tier):
     res.add(du.loads.judge('C08.d', 'a message is accepted only when the cursor equals the length of the message data',
                            func_where(dfi), 'if message_pointer != len(message_data): raise', chk_d))
 
+    res.add(flagged_parsed_ob(prog, res, du, dfi))
+
     # ---- C08.f sub-element tiling
     for key, title in (('pds', 'PDS sub-elements tag(4) length(3) value(L) tile the carrier; cursor steps by 7+L'),
                        ('icc', 'ICC TLV parts tag(1|2) length(1) value(L) tile the field; cursor steps by t+1+L')):
@@ -317,6 +319,33 @@ def check(prog, res, tier):
         chk_exit.names = set()
         res.add(u.runs.judge('C08.f', f'{key.upper()} walk: leaving the loop through its condition means the whole field was consumed',
                              func_where(u.fi), 'while field_pointer < len(field_data)', chk_exit, rule=f'C08.f.exit.{key}'))
+
+
+def flagged_parsed_ob(prog, res, du, dfi):
+    from .c01 import decoder_iterations
+    ob = Ob('C08.g', 'an element is parsed if and only if its own bitmap flag is set (no flagged element is skipped, none is invented)',
+            func_where(dfi), 'if bitmap_list[bit]: ... _iso8583_to_field(...)')
+    recs = decoder_iterations(du, dfi)
+    seen = [r for r in recs if r['flag'] is not None]
+    bad = [r for r in seen if r['flag'] != r['parsed']]
+    res.count(evaluations=len(recs))
+    if not seen:
+        ob.verdict, ob.detail = UNDECIDED, 'no test of the element flag observed in the element loop'
+    elif bad:
+        r = bad[0]
+        other = r.get('other_tests')
+        why = 'is set but the element is not parsed' if r['flag'] else 'is clear but an element is parsed'
+        extra = f' (the path also tests bit-list positions {[str(r["path"].store.canon(i)) for i, _t in other]})' if other else ''
+        w = r['path'].store.witness()
+        if w is None:
+            ob.verdict, ob.detail = UNDECIDED, f'the flag of an element {why}, but no witness was found'
+        else:
+            ob.verdict, ob.detail, ob.witness = REFUTED, f'the bitmap flag of an element {why}{extra}: framing no longer follows the bitmap', \
+                {k: v for k, v in w.items() if not k.startswith('len<')}
+            ob.construct = norm_text(r['node'])[:120] if False else ob.construct
+    else:
+        ob.verdict, ob.detail = PROVED, f'{len(seen)} iteration paths: flag set <=> element parsed'
+    return ob
 
 
 def seqops_eq(p, a, b):
